@@ -155,3 +155,27 @@ func (s *Store) Copy(sb, sk, db, dk string) (Exp, *Obj) {
 	s.Buckets[db][dk] = c
 	return Exp{200, ""}, src
 }
+
+// Render is a canonical rendering of the model state (part of every state key:
+// an implementation that reaches an already seen storage state while the model
+// is somewhere else has diverged, and must not be merged away).
+func (s *Store) Render() string {
+	out := ""
+	for _, b := range s.BucketNames() {
+		out += "B " + b + "\n"
+		for _, k := range s.Keys(b) {
+			o := s.Buckets[b][k]
+			var mk []string
+			for m := range o.Meta {
+				mk = append(mk, m)
+			}
+			sort.Strings(mk)
+			ms := ""
+			for _, m := range mk {
+				ms += m + "=" + o.Meta[m] + ";"
+			}
+			out += " K " + k + " " + string(o.Body) + " " + ms + "\n"
+		}
+	}
+	return out
+}
